@@ -29,6 +29,10 @@ class InjectedFault(Exception):
     """Raised by a failpoint."""
 
 
+class InjectedOSError(OSError):
+    """Raised by a failpoint that imitates a failing system call (e.g. EMFILE on open)."""
+
+
 class _State:
     def __init__(self):
         self.installed = False
@@ -107,6 +111,8 @@ def _on_line(code, line):
                             sl.value -= 1
             elif act[0] == "raise":
                 raise InjectedFault(f"failpoint at {role}:{qn}+{rel}#{n}")
+            elif act[0] == "raise_os":
+                raise InjectedOSError(act[1], f"injected OSError at {role}:{qn}+{rel}#{n}")
     if st.yield_every and st.total % st.yield_every == 0:
         time.sleep(0)
 
